@@ -49,7 +49,7 @@ META = {
     "ready": True,
     "category": "proof",
     "technique": "Rocq inductive invariants over hand-written executable models + state-by-state differential against the real tree and label-by-label scenario conformance on real actor systems",
-    "text": "Fifteen theorems. Tree (actor/pid_tree.go as an executable pointer-faithful model): the consistency invariant (counter = registered nodes, name index sound, watchers/watchees mutually inverse and over registered nodes only, root registered) holds after EVERY finite sequence of tree operations. Stop protocol (Shutdown/doStop/freeChildren + SpawnChild + death watch as a small-step system, any number of actors and goroutines, any interleaving): lifecycle events at most once, a stopped actor had its PostStop, children-first along the children snapshots and stopped-on-return — unguarded for the repaired freeChildren (fix 73f6267), on race-free executions for the previous code, and, beyond the snapshots, EVERY descendant by the spawn relation whose SpawnChild has returned has completed PostStop once its ancestor's PostStop completed (C09_all_descendants_stopped_*), with refutation witnesses for the concurrent-stop race and for SpawnChild racing the parent's stop (open finding); the driver-level function the tie evaluates is proved to take only steps of the small-step system. Every run re-ties both models to /repo: generated tree-op sequences on the real tree (whole observable state after every op), scripted stop/spawn scenarios on real actor systems with PostStop/PreStart gated by the harness (observation after every driver action), both compared with the Coq models by vm_compute, plus the property's own oracle on the recorded events.",
+    "text": "Fifteen theorems. Tree (actor/pid_tree.go as an executable pointer-faithful model): the consistency invariant (counter = registered nodes, name index sound, watchers/watchees mutually inverse and over registered nodes only, root registered) holds after EVERY finite sequence of tree operations. Stop protocol (Shutdown/doStop/freeChildren + SpawnChild + death watch as a small-step system, any number of actors and goroutines, any interleaving): lifecycle events at most once, a stopped actor had its PostStop, children-first along the children snapshots and stopped-on-return — unguarded for the repaired freeChildren (fix 73f6267), on race-free executions for the previous code, and, beyond the snapshots, EVERY descendant by the spawn relation whose SpawnChild has returned has completed PostStop once its ancestor's PostStop completed (C09_all_descendants_stopped_*), with refutation witnesses for the concurrent-stop race and for SpawnChild racing the parent's stop (open finding); the driver-level function the tie evaluates is proved to take only steps of the small-step system. Every run re-ties both models to /repo: generated tree-op sequences on the real tree (whole observable state after every op), scripted stop/spawn scenarios on real actor systems with PostStop/PreStart gated by the harness (observation after every driver action), both compared with the Coq models by vm_compute, plus the property's own oracle on the recorded events. Scenarios also restart running subtrees at quiet points (the model's DRestart is the identity on what the harness observes) and stop them afterwards; an oracle checks that no actor whose PostStop completed is still registered at the end of a script.",
     "design_ref": "DESIGN.md 7/C09",
     "level_note": "Trusted: Coq kernel, the hand-written models (tied state-by-state each run), Go runtime for the un-gated parts. Not modelled: restarts, suspension, PostStop returning an error (stated in assumptions).",
 }
